@@ -4,7 +4,7 @@
    on what the implementation was observed to do (spec_ok).
    result code: 0 agree & spec_ok   1 not agree & spec_ok   2 not agree & not spec_ok
                 3 agree & not spec_ok (model mirrors a defect) *)
-From Verif Require Export C19.Model C19.Pool.
+From Verif Require Export C19.Model C19.Pool C19.Wait.
 Open Scope N_scope.
 
 Definition code (agree spec_ok : bool) : N :=
@@ -52,24 +52,26 @@ Definition fail (r : preplay) : preplay := mkR (r_pool r) (r_map r) false.
 (* The pruner frees the token of an expired idle connection BEFORE it closes it (where the
    close is logged): a Get may take that token and be logged first.  When the replay finds
    no free token it looks ahead for the close of a connection that is still idle. *)
-Fixpoint find_pruned (s : pool) (m : list (N * N)) (l : list pev) : option nat :=
+Fixpoint find_pruned (s : pool) (m : list (N * N)) (taken : list N) (l : list pev) : option nat :=
   match l with
   | [] => None
   | EvConnClosed c :: l' =>
-      match assoc c m with
-      | Some mc => match index_of mc (idle s) with
-                   | Some k => Some k
-                   | None => find_pruned s m l'
-                   end
-      | None => find_pruned s m l'
-      end
-  | _ :: l' => find_pruned s m l'
+      if mem c taken then find_pruned s m taken l'      (* handed out again before it is closed: not the pruner's *)
+      else match assoc c m with
+           | Some mc => match index_of mc (idle s) with
+                        | Some k => Some k
+                        | None => find_pruned s m taken l'
+                        end
+           | None => find_pruned s m taken l'
+           end
+  | EvGetIdle _ c :: l' => find_pruned s m (c :: taken) l'
+  | _ :: l' => find_pruned s m taken l'
   end.
 
 Definition take_token (rest : list pev) (m : list (N * N)) (h : N) (s : pool) : pool :=
   let s1 := pexec (PGet h None) s in
   let s1' := if negb (closed s1) && Nat.leb (cap s1) (tokens s1)
-             then match find_pruned s1 m rest with
+             then match find_pruned s1 m [] rest with
                   | Some k => pexec (PPrunePop k true) s1
                   | None => s1
                   end
@@ -106,14 +108,14 @@ Definition pstep (rest : list pev) (r : preplay) (e : pev) : preplay :=
       | _ => fail (mkR s2 (r_map r) false)
       end
   | EvGetErr h dial_failed =>
-      let s2 := if dial_failed then take_token rest (r_map r) h s
-                else pexec (PTake h) (pexec (PGet h None) s) in
+      let s2 := pexec (PTake h) (pexec (PGet h None) s) in
       match hs s2 h with
       | HTook => (* factory error; for a time-out the replay may see a free token that the
                     real tryTake did not: taking and freeing it is state-neutral *)
                  mkR (pexec (PDial h false) s2) (r_map r) (r_ok r)
-      | HWait => if dial_failed then fail (mkR s2 (r_map r) false)
-                 else mkR (pexec (PTimeout h) s2) (r_map r) (r_ok r)
+      | HWait => (* time-out; or a failed dial whose token (taken and given back) the replay
+                    does not see free at this point: state-neutral either way *)
+                 mkR (pexec (PTimeout h) s2) (r_map r) (r_ok r)
       | HErr => mkR s2 (r_map r) (r_ok r && negb dial_failed)
       | _ => fail (mkR s2 (r_map r) false)
       end
@@ -296,6 +298,16 @@ Definition accepted (p : aphase) : bool := match p with AAccepted _ _ _ _ => tru
 Definition model_auth (tr : list mact) : bool * bool :=
   let s := run_trace mexec tr minit in (accepted (aph s 2), accepted (aph s 3)).
 
+(* metadata updates through a real meta.Client: per call the smallest index the server can
+   have given it, the client's index after the call returned, and whether it returned
+   before the deadline.  The model runs the call against the publication of its index in
+   the order that loses the wake-up in the two-section variant. *)
+Definition wait_call_trace (k idx : N) : list wact :=
+  [WCall k idx; WCheck k; WPublish idx; WChan k; WWake k; WCheck k].
+
+Definition model_call_returns (k idx : N) : bool :=
+  match w_st (run_trace wexec (wait_call_trace k idx) winit) k with WDone _ => true | _ => false end.
+
 (* ------------------------------------------------------------------ *)
 (* cases                                                               *)
 (* ------------------------------------------------------------------ *)
@@ -314,7 +326,10 @@ Inductive case :=
 | CMeta (evs : list mev) (bad : bool)
 | CAuth (rounds : list (bool * bool)) (bad : bool)     (* (old password accepted late, new accepted) *)
 (* hinted handoff: per node (acknowledged, found after reopen, attempted) *)
-| CHh (nodes : list (N * N * N)) (bad : bool).
+| CHh (nodes : list (N * N * N)) (bad : bool)
+(* meta.Client updates against a snapshot server: (call, index it waits for at least,
+   client index after the return, returned before the deadline) *)
+| CWait (calls : list (N * N * N * bool)) (bad : bool).
 
 Definition check_case (c : case) : N :=
   match c with
@@ -350,6 +365,9 @@ Definition check_case (c : case) : N :=
       let agree := forallb (fun r => (Bool.eqb (fst r) (fst m1) && Bool.eqb (snd r) (snd m1))
                                      || (Bool.eqb (fst r) (fst m2) && Bool.eqb (snd r) (snd m2))) rounds in
       code (agree && negb bad) (forallb (fun r => negb (fst r) && snd r) rounds && negb bad)
+  | CWait calls bad =>
+      code (forallb (fun c => match c with (k, idx, _, ret) => Bool.eqb (model_call_returns k idx) ret end) calls && negb bad)
+           (forallb (fun c => match c with (_, idx, after, ret) => ret && N.leb idx after end) calls && negb bad)
   | CHh nodes bad =>
       (* nothing invented (found <= attempted) / nothing acknowledged is lost *)
       code (forallb (fun n => match n with (_, found, att) => N.leb found att end) nodes && negb bad)
